@@ -239,7 +239,7 @@ def run(ctx: lib.Ctx) -> None:
             bls_signed += 1
         cases.append(c)
     # the witnesses of the findings file are replayed first (they must still fail: they document the class)
-    witness_cases = finding_witnesses(keys) + boundary_cases(keys, rng) + residue_cases(keys)[::3]
+    witness_cases = finding_witnesses(keys) + kind_sweep(keys, rng) + boundary_cases(keys, rng) + residue_cases(keys)[::3]
 
     coq_cases, meta = [], []
     reported = 0
@@ -316,6 +316,25 @@ def plain_case(keys, n, milligas_list, curve=b'ed', mode='autofill', node_counte
     return dict(curve=curve, key=keys[curve][0], n=n, mode=mode, hard_gas=1_040_000, hard_storage=60000, node_counter=node_counter, pending=0,
                 contents=[dict(TRANSFER) for _ in range(n)], preset=False,
                 sims=[{'operation_result': {'status': 'applied', 'consumed_milligas': str(m)}} for m in milligas_list])
+
+
+def kind_sweep(keys, rng):
+    """every manager kind x fill/autofill x every 64-byte-signature curve as a single content under default node constants, with the
+    variants of fields that fill() completes itself (blank delegate = self registration, blank public key)"""
+    out = []
+    for kind in KINDS:
+        variants = [G.rand_content(rng, kind, unset=True)]
+        if kind == 'delegation':
+            variants = [dict(variants[0], delegate=''), dict(variants[0], delegate=G.rand_pkh(rng)),
+                        {k: v for k, v in variants[0].items() if k != 'delegate'}]
+        if kind == 'origination':
+            variants.append(dict(variants[0], delegate=G.rand_pkh(rng)))
+        for c in variants:
+            for mode in ('fill', 'autofill'):
+                for cv in (b'ed', b'sp', b'p2'):
+                    out.append(dict(curve=cv, key=keys[cv][0], n=1, mode=mode, hard_gas=1_040_000, hard_storage=60000,
+                                    node_counter=rng.choice([0, 127, 16383, 10 ** 6]), pending=0, contents=[dict(c)], preset=False))
+    return out
 
 
 def boundary_cases(keys, rng):
